@@ -35,7 +35,7 @@ fn nonspec_input() -> BoxedStrategy<(Vec<u8>, u8)> {
 /// (A, R, S) for raw_verify with the pass-through context digest: k = (R + 2^256 A) mod l is chosen.
 /// kind 0: k = target with arbitrary S (rejections, incl. S = 0 and k = 0 together: both scalars of the
 /// double-base multiplication are zero); kind 1: k = 0 and R = compress(S*B), an ACCEPTED signature for every message.
-fn chosen_k() -> BoxedStrategy<Req> {
+pub fn chosen_k() -> BoxedStrategy<Req> {
     use crate::model::big::{U256, U512};
     use crate::model::ed::Aff;
     use crate::model::sc::{self, Sc};
